@@ -224,6 +224,133 @@ fn transformed<F: MathFunction + Function<Trace = VmTrace> + Clone>(cx: &mut Cx,
     }
 }
 
+// ---- class-directed single-op cases (classes enumerated by spec/IntervalClasses.tla) ----------
+fn next_up(v: f32) -> f32 {
+    if v.is_nan() || v == f32::INFINITY { return v; }
+    if v == 0.0 { return f32::from_bits(1); }
+    let b = v.to_bits();
+    f32::from_bits(if v > 0.0 { b + 1 } else { b - 1 })
+}
+fn next_down(v: f32) -> f32 {
+    -next_up(-v)
+}
+
+fn sign_box(rng: &mut Rng, class: &str) -> Interval {
+    let a = rng.range(0.01, 5.0);
+    let b = a + rng.range(0.0, 5.0);
+    match class {
+        "neg" => Interval::new(-b, -a),
+        "pos" => Interval::new(a, b),
+        "straddle" => Interval::new(-a, b),
+        "zero" => Interval::new(0.0, 0.0),
+        "touch-lo" => Interval::new(0.0, b),
+        "touch-hi" => Interval::new(-b, 0.0),
+        "huge" => {
+            let h = *rng.pick(&[1.0e19f32, 1.0e30, 3.0e38, f32::MAX]);
+            match rng.below(3) { 0 => Interval::new(-h, h), 1 => Interval::new(a, h), _ => Interval::new(-h, -a) }
+        }
+        _ => {
+            let t = *rng.pick(&[1.0e-30f32, 1.0e-40, f32::MIN_POSITIVE, 1.0e-20]);
+            match rng.below(3) { 0 => Interval::new(-t, t), 1 => Interval::new(t, 2.0 * t), _ => Interval::new(-t, 0.0) }
+        }
+    }
+}
+
+fn class_box(rng: &mut Rng, c: &Value) -> Option<(Interval, Vec<f32>)> {
+    let kind = c["kind"].as_str()?;
+    match kind {
+        "periodic" => {
+            let q = c["q"].as_i64()? as f32;
+            let span = c["span"].as_i64()?;
+            let off = c["off"].as_i64()? as f32;
+            let h = PI / 2.0;
+            let lo = (4.0 * off + q) * h + rng.range(0.02, 0.98) * h;
+            let hi = match span {
+                0 => lo + rng.range(0.0, 1.0) * (((4.0 * off + q) + 1.0) * h - lo) * 0.98,
+                5 => lo + PI + rng.range(0.01, 0.4),
+                s => (4.0 * off + q + s as f32) * h + rng.range(0.02, 0.98) * h,
+            };
+            // critical points inside: multiples of pi/2
+            let mut crit = vec![];
+            let mut k = (lo / h).ceil();
+            while k * h <= hi && crit.len() < 12 {
+                let v = k * h;
+                crit.extend([next_down(v), v, next_up(v)]);
+                k += 1.0;
+            }
+            Some((Interval::new(lo, hi.max(lo)), crit))
+        }
+        "bounded" => {
+            let pos = |s: &str, rng: &mut Rng| -> f32 {
+                match s { "below" => -1.0 - rng.range(1.0e-6, 0.5), "at-lo" => -1.0, "inside" => rng.range(-0.99, 0.99), "at-hi" => 1.0, _ => 1.0 + rng.range(1.0e-6, 0.5) }
+            };
+            let (a, b) = (pos(c["lo"].as_str()?, rng), pos(c["hi"].as_str()?, rng));
+            Some((Interval::new(a.min(b), a.max(b)), vec![-1.0, 1.0, 0.0]))
+        }
+        "sign" => Some((sign_box(rng, c["a"].as_str()?), vec![0.0, -0.0, f32::MIN_POSITIVE, -f32::MIN_POSITIVE])),
+        "rounding" => {
+            let base: f32 = match c["mag"].as_str()? { "small" => rng.below(3) as f32, "mid" => 100.0 + rng.below(1000) as f32, _ => 8388608.0 + (2 * rng.below(1000) + 1) as f32 };
+            let end = |s: &str, base: f32| -> f32 {
+                match s { "int-below" => next_down(base), "int" => base, "int-above" => next_up(base),
+                    "half-below" => next_down(base + 0.5), "half" => base + 0.5, _ => next_up(base + 0.5) }
+            };
+            let neg = c["negative"].as_bool()?;
+            let (a, b) = (end(c["lo"].as_str()?, base), end(c["hi"].as_str()?, base + rng.below(3) as f32));
+            let (a, b) = if neg { (-b, -a) } else { (a, b) };
+            let crit = vec![0.5, -0.5, next_down(0.5), -next_down(0.5), next_up(0.5), 1.5, 2.5, -1.5, base, base + 0.5, -base - 0.5];
+            Some((Interval::new(a.min(b), a.max(b)), crit))
+        }
+        _ => None,
+    }
+}
+
+fn class_cases(cx: &mut Cx, path: &str, rng: &mut Rng, per_class: usize) {
+    let text = std::fs::read_to_string(path).unwrap_or_default();
+    let mut lines: Vec<&str> = text.lines().filter(|l| l.starts_with("<<\"GEN\", \"")).collect();
+    lines.sort();
+    for l in lines {
+        let body = l.trim_start_matches("<<\"GEN\", \"").trim_end_matches("\">>").replace("\\\"", "\"");
+        let c: Value = match serde_json::from_str(&body) { Ok(v) => v, Err(_) => continue };
+        let op = c["op"].as_str().unwrap_or("").to_string();
+        for _ in 0..per_class {
+            let (p, bx, crit): (Prog, Vec<Interval>, Vec<Vec<f32>>) = if c["kind"] == "binary" {
+                let form = c["form"].as_str().unwrap_or("rr");
+                let a = sign_box(rng, c["a"].as_str().unwrap());
+                let b = sign_box(rng, c["b"].as_str().unwrap());
+                use vharness::tapes::GOp;
+                let is_commutative_only = !vharness::tapes::IMMREG.contains(&op.as_str());
+                match form {
+                    "rr" => (Prog { ssa: vec![GOp::new(0, "Output", -1, 2, 0, 0), GOp::new(6, &op, 2, 0, 1, 0), GOp::new(1, "Input", 1, 1, -1, 0), GOp::new(1, "Input", 0, 0, -1, 0)], nvars: 2 }, vec![a, b], vec![]),
+                    "ri" => {
+                        let imm = b.lower() + (b.upper() - b.lower()) * rng.unit();
+                        let imm = if imm.is_finite() { imm } else { b.lower() };
+                        (Prog { ssa: vec![GOp::new(0, "Output", -1, 1, 0, 0), GOp::new(4, &op, 1, 0, -1, bits(imm)), GOp::new(1, "Input", 0, 0, -1, 0)], nvars: 1 }, vec![a], vec![])
+                    }
+                    _ => {
+                        if is_commutative_only { continue; }
+                        let imm = a.lower() + (a.upper() - a.lower()) * rng.unit();
+                        let imm = if imm.is_finite() { imm } else { a.lower() };
+                        (Prog { ssa: vec![GOp::new(0, "Output", -1, 1, 0, 0), GOp::new(5, &op, 1, 0, -1, bits(imm)), GOp::new(1, "Input", 0, 0, -1, 0)], nvars: 1 }, vec![b], vec![])
+                    }
+                }
+            } else {
+                let Some((b, crit)) = class_box(rng, &c) else { continue };
+                use vharness::tapes::GOp;
+                let inside: Vec<Vec<f32>> = crit.into_iter().filter(|v| *v >= b.lower() && *v <= b.upper()).map(|v| vec![v]).collect();
+                (Prog { ssa: vec![GOp::new(0, "Output", -1, 1, 0, 0), GOp::new(3, &op, 1, 0, -1, 0), GOp::new(1, "Input", 0, 0, -1, 0)], nvars: 1 }, vec![b], inside)
+            };
+            let mut pts = box_samples(rng, &bx, 12);
+            pts.extend(crit);
+            let excluded = has_atan2(&p);
+            let vmf = vm_fn::<255>(&p).unwrap();
+            let jf = jit_fn(&p).unwrap();
+            let pf = |q: &[f32]| point_trace(&vmf, q).out;
+            e2e(cx, "vm-class", &vmf, &pf, 1, &bx, &pts, excluded, &p);
+            e2e(cx, "jit-class", &jf, &pf, 1, &bx, &pts, excluded, &p);
+        }
+    }
+}
+
 fn main() {
     let args: Vec<String> = std::env::args().collect();
     let quick = args[2] == "quick";
@@ -267,6 +394,9 @@ fn main() {
             nodes(&mut cx, "vm", &vma, &pa, &map, &bx, &pts, &pouts);
             nodes(&mut cx, "jit", &ja, &pa, &map, &bx, &pts, &pouts);
         }
+    }
+    if args.len() > 4 {
+        class_cases(&mut cx, &args[4], &mut rng, if quick { 2 } else { 12 });
     }
     transformed::<VmFunction>(&mut cx, "vm", &mut rng, if quick { 300 } else { 4000 });
     transformed::<JitFunction>(&mut cx, "jit", &mut rng, if quick { 300 } else { 4000 });
